@@ -21,14 +21,15 @@ VARIABLES
   tokFails,    \* the cw20 token currently refuses payouts (fault injection)
   pkts,        \* sequence of packets we sent: [ch, denom, amt, sender, done]
   legacy,      \* TRUE while a pre-allow-list (v1) contract has not been migrated
+  regs,        \* set of registered channels "id>port:channel" (ListChannels)
   now, out, ack,
   credit,      \* history [Chan -> [Denom -> Int]]: escrowed - paid out, per channel and denomination
   ident,       \* history [Chan -> [Denom -> Int]]: sent - failed - redeemed
   pktMax,      \* largest amount an ICS-20 packet can carry (2^64-1) in the run's scale, -1 = unreachable
   ev
 
-svars == <<chan, held, ubal, defaultGas, admin, allow, tokFails, pkts, legacy, now, out, ack>>
-vars == <<chan, held, ubal, defaultGas, admin, allow, tokFails, pkts, legacy, now, out, ack, credit, ident, pktMax, ev>>
+svars == <<chan, held, ubal, defaultGas, admin, allow, tokFails, pkts, legacy, regs, now, out, ack>>
+vars == <<chan, held, ubal, defaultGas, admin, allow, tokFails, pkts, legacy, regs, now, out, ack, credit, ident, pktMax, ev>>
 
 RECURSIVE SumF(_, _)
 SumF(S, f) == IF S = {} THEN 0 ELSE LET x == CHOOSE y \in S : TRUE IN f[x] + SumF(S \ {x}, f)
@@ -121,4 +122,10 @@ C18_TransferGate == Step /\ IsOk("transfer") /\ E.args.denom = "tok" => allow.li
 Payouts(o) == SelectSeq(o, LAMBDA m : m.k = "payout")
 C18_PayoutGas == Step => \A i \in 1..Len(out') :
   out'[i].k = "payout" => out'[i].gas = IF out'[i].denom = "tok" THEN TokGas ELSE -1
+\* ------------------------------------------------------------------ beyond the listed properties
+\* IBC channel handshake (ibc_channel_open / ibc_channel_connect): only unordered ics20-1 channels
+GoodShake(e) == e.args.version = "ics20-1" /\ e.args.order = "unordered"
+XI_OpenRule == Step /\ IsOk("chan_open") => GoodShake(E) /\ E.args.cpv \in {"none", "ics20-1"} /\ regs' = regs
+XI_ConnectRule == Step /\ IsOk("chan_connect") => GoodShake(E) /\ E.args.ch \in Chan /\ \E r \in regs' : regs' = regs \cup {r}
+XI_RegsWriters == Step /\ regs' # regs => IsOk("chan_connect")
 =============================================================================
